@@ -18,11 +18,40 @@ def o_c02_recovers(tr):
         healthy_from = max(healthy_from, int(bh.split(":")[1]) * 1000)
     for r in tr.of("ev"):
         if r.name == "connectivity:connection_closed" and "IdleTimerExpired" in r.text and r.t > healthy_from:
+            leak = leaked_stream(tr)
+            if leak:
+                bad.append(("e2e:c02:idle-timeout-after-recovery:stream-leaked-by-stop-after-reset",
+                            f"endpoint {leak[0]} processed RESET_STREAM for stream {leak[1]} and its application then called stop_sending() / dropped "
+                            f"the receive half without reading the reset: the stream is never finalized, its stream credit is never returned "
+                            f"(no MAX_STREAMS), the peer stays blocked opening streams (STREAMS_BLOCKED x{leak[2]}) until IdleTimerExpired at {r.t}us"))
+                break
             bad.append(("e2e:c02:idle-timeout-after-recovery",
                         f"endpoint {r.ep} gave up with IdleTimerExpired at {r.t}us although the network has been delivering every datagram "
                         f"since {healthy_from}us (idle timeout {tr.params.get(r.ep + '.max_idle_ms', 30000)}ms): the transfer dead-locked"))
             break
     return bad
+
+
+def leaked_stream(tr):
+    """(endpoint, stream id, number of STREAMS_BLOCKED frames its peer sent afterwards) when the dead-lock has this shape:
+    the endpoint processed a RESET_STREAM for a stream, only afterwards its application called stop_sending() on that stream
+    (logged `stop <sid>`), never read from it again, and the peer then kept asking for stream credit"""
+    reset_at = {}
+    for r in tr.recs:
+        if r.kind == "rxp" and r.space == "app":
+            for f in r.frames:
+                if f["type"] == "RESET_STREAM":
+                    reset_at.setdefault((r.ep, f["id"]), r.idx)
+    for r in tr.of("app"):
+        if r.what == "stop" and r.args:
+            k = (r.ep, int(r.args[0]))
+            if k in reset_at and reset_at[k] <= r.idx:
+                later_reads = [a for a in tr.of("app") if a.ep == r.ep and a.idx > r.idx and a.args and a.args[0] == r.args[0] and a.what in ("read", "eof", "err")]
+                pe = "s" if r.ep == "c" else "c"
+                blocked = sum(1 for x in tr.recs if x.kind == "txp" and x.ep == pe and x.idx > r.idx and any(f["type"] == "STREAMS_BLOCKED" for f in x.frames))
+                if not later_reads and blocked >= 3:
+                    return (r.ep, int(r.args[0]), blocked)
+    return None
 
 
 def run(ctx):
